@@ -14,10 +14,10 @@ STUB = ["environment (SimEnv)", "sampler", "logger (ProbeLogger)"]
 ASSUMPTIONS = ["targets created inside a routine are observable from their first record_epoch; earlier only frame conditions on harness-held modules apply",
                "float32 Polyak recomputation agrees with the library to 4e-6 relative"]
 TIERS = {"quick": {"runs": 70}, "thorough": {"runs": 1500}}
-REQUIRED = ["soft_updates_checked", "hard_updates_checked", "tau_0", "tau_1", "online_unchanged_by_target_update"]
+REQUIRED = ["soft_updates_checked", "hard_updates_checked", "tau_0", "tau_1", "online_unchanged_by_target_update", "module_primitive_updates"]
 REQUIRED_QUICK = ["soft_updates_checked", "hard_updates_checked"]
 CHUNK = 24  # TrainSim plans per fresh worker process
-SHRINK_LISTS = [["env", "script"]]
+SHRINK_LISTS = [["env", "script"], ["ops"]]
 SHRINK_INTS = []
 CLAUSES = ["C06"]
 ADAPTERS = ["ddpg", "td3", "td3_lap", "sac", "nature_dqn", "ddqn", "ddqn_per", "td7", "mrq"]
@@ -33,7 +33,85 @@ def _T(rng, tier, name, short):
 TWIN = ["ddpg", "td3", "td3_lap", "sac", "nature_dqn", "ddqn", "ddqn_per", "td7"]
 
 
+def make_module_plan(rng):
+    """Target-update primitives on every module type the repository builds: histories of online optimiser steps, soft
+    updates (tau from {0, 0.005, 0.3, 1}) and hard updates on an online/target pair; the recurrence is applied per leaf."""
+    from rlsim import modsim
+    ops = []
+    for _ in range(rng.choice([4, 8, 14])):
+        r = rng.random()
+        if r < 0.4:
+            ops.append(["step", rng.choice([1e-3, 1e-2, 0.1])])
+        elif r < 0.85:
+            ops.append(["soft", rng.choice([0.0, 0.005, 0.3, 1.0, 0.5])])
+        else:
+            ops.append(["hard"])
+    return {"kind": "modules", "module": rng.choice(modsim.KINDS), "seed": rng.randrange(1000), "hidden": rng.choice([2, 3]), "ops": ops, "check": PROPERTY}
+
+
+def execute_modules(plan):
+    import numpy as np
+    from flax import nnx
+
+    from rlsim import modsim
+    from rlsim.core import Result, raised_by_code_under_test
+    from rlsim.monitors import leaves_close, polyak
+    from rlsim.probes import state_leaves
+    from rl_blox.blox.target_net import hard_target_net_update, soft_target_net_update
+
+    res = Result()
+    site = plan["module"]
+    online, _ = modsim.build(plan["module"], plan["seed"], plan["hidden"])
+    target = nnx.clone(online)
+    ids = lambda m: {id(v) for _, v in nnx.iter_graph(m) if isinstance(v, nnx.Variable)}
+    if ids(online) & ids(target):
+        res.violate("C06.e", site, "nnx.clone shares Variables with the original")
+    for i, op in enumerate(plan["ops"]):
+        o0, t0 = state_leaves(online), state_leaves(target)
+        try:
+            if op[0] == "step":
+                modsim.sgd_step(online, op[1])
+            elif op[0] == "soft":
+                soft_target_net_update(online, target, op[1])
+            else:
+                hard_target_net_update(online, target)
+        except Exception as e:
+            if not raised_by_code_under_test(e):
+                raise
+            res.violate("C06.raise", site, f"op {i} {op}: {type(e).__name__}: {e}")
+            return res
+        o1, t1 = state_leaves(online), state_leaves(target)
+        res.log.add(i, op, [a for _, a in t1])
+        if op[0] == "step":
+            if any(not np.array_equal(x, y) for (_, x), (_, y) in zip(t0, t1)):
+                res.violate("C06.c", site, f"op {i}: the target changed although only the online network was trained (shared storage?)")
+                return res
+            continue
+        if any(not np.array_equal(x, y) for (_, x), (_, y) in zip(o0, o1)):
+            res.violate("C06.d", site, f"op {i} {op}: the target update changed the online network")
+            return res
+        if op[0] == "hard" or op[1] == 1.0:
+            ok = all(np.array_equal(x, y) for (_, x), (_, y) in zip(o1, t1))
+        elif op[1] == 0.0:
+            ok = all(np.array_equal(x, y) for (_, x), (_, y) in zip(t0, t1))
+        else:
+            ok, _ = leaves_close(polyak(o1, t0, op[1]), t1, rtol=4e-6, atol=1e-9)
+        if not ok:
+            res.violate("C06.a" if op[0] == "soft" else "C06.b", site, f"op {i} {op}: target leaves do not follow {'tau*online + (1-tau)*target' if op[0] == 'soft' else 'target := online'} for module type {plan['module']}")
+            return res
+        res.probe("soft_updates_checked" if op[0] == "soft" else "hard_updates_checked")
+        res.probe("module_primitive_updates")
+        if op[0] == "soft" and op[1] == 0.0:
+            res.fault("tau_0")
+        if op[0] == "soft" and op[1] == 1.0:
+            res.fault("tau_1")
+    res.signature = f"modules|{plan['module']}|{plan['hidden']}|{len(plan['ops'])}"
+    return res
+
+
 def make_plan(rng, tier, index):
+    if index % 7 == 5:
+        return make_module_plan(rng)
     if index % 7 == 6:
         # C06.d twin: the same plan with target updates neutralised (tau=0 / huge delay); the ONLINE networks right
         # after the first target update must be bit-identical in both runs (the update must not touch them)
@@ -76,6 +154,8 @@ def is_target(name):
 
 
 def execute(plan):
+    if plan.get("kind") == "modules":
+        return execute_modules(plan)
     if plan.get("kind") != "twin_online":
         return trainsim.execute(plan)
     import json
